@@ -1,5 +1,8 @@
 // c09 — correspondence harness + property search for C09 (transaction / block wire decoding).
 // Real code: btc.NewTx, Tx.SetHash, Serialize/SerializeNew, Weight/VSize, btc.TxSize, btc.NewBlock + BuildTxListExt.
+// Files: main.go (transactions, blocks, corpus, generators), boundary.go (the CompactSize ranges as an input class: writers /
+// readers directly, one length field at a range end, the same through the serialisers and inside blocks), direct.go (exported
+// helpers on short buffers), obj.go (one Block object through histories).
 // Model: lean oracle_c09 (Model/Wire.lean). Independent reference for the property predicate: refParse /
 // refSerialize below, written from BIP144 and Bitcoin Core's UnserializeTransaction / ReadCompactSize.
 package main
@@ -1575,7 +1578,7 @@ func main() {
 		"the reference parser in this harness (refParse/refSerialize) states BIP144 + Bitcoin Core's UnserializeTransaction/ReadCompactSize",
 		"allocation counter of the model (Wire.allocTx) counts bytes REQUESTED (64-bit Go: pointer 8, slice header 24, struct sizes from unsafe.Sizeof); size-class rounding and the panic value of a refused input are covered by the tie bound A <= measured <= 2A+2048",
 	}
-	r.Finish("corpus (defect witnesses of F4, boundary shapes, Core's tx_valid/tx_invalid vectors from /repo/lib/test); BIP144 encodings of random transactions (0..300 inputs/outputs/witness items, scripts 0..65537 bytes, CompactSize boundaries 252..257/65535..65537) with and without trailing bytes; EVERY truncation and every byte position mutated 6-9 ways of a sample; every length field of a sample in each of the four CompactSize forms and with huge values; marker/flag combinations; emptied witnesses; unstructured bytes; structured transactions through both serialisers; random blocks (header Merkle field = root of the txids; also random / bit-flipped field, CVE-2012-2459 duplicated tails, dropped and swapped transactions) with trailing bytes, truncations, bit flips, changed count forms; histories of 1..8 calls (UpdateContent with valid / truncated / count-damaged / header-only / too-short contents, BuildTxListExt(false), BuildTxList, Clean, the client's reset) on ONE Block object. distinct = distinct input byte strings longer than 4 bytes",
+	r.Finish("corpus (defect witnesses of F4, boundary shapes, Core's tx_valid/tx_invalid vectors from /repo/lib/test); BIP144 encodings of random transactions (0..300 inputs/outputs/witness items, scripts 0..65537 bytes, CompactSize boundaries 252..257/65535..65537) with and without trailing bytes; ONE length field (input count, scriptSig length, output count, pk_script length, witness item count, witness item length) at 252/253/65535/65536/65537 and inside the 5-byte CompactSize range, legacy and BIP144 layout, each also cut / with trailing bytes / with a damaged prefix, as a hand-built btc.Tx through both serialisers, and inside blocks; WriteVlen/PutULe/VLenSize/VULe/ReadVLen directly on values of all four CompactSize ranges; EVERY truncation and every byte position mutated 6-9 ways of a sample; every length field of a sample in each of the four CompactSize forms and with huge values; marker/flag combinations; emptied witnesses; unstructured bytes; structured transactions through both serialisers; random blocks (header Merkle field = root of the txids; also random / bit-flipped field, CVE-2012-2459 duplicated tails, dropped and swapped transactions) with trailing bytes, truncations, bit flips, changed count forms; histories of 1..8 calls (UpdateContent with valid / truncated / count-damaged / header-only / too-short contents, BuildTxListExt(false), BuildTxList, Clean, the client's reset) on ONE Block object. distinct = distinct input byte strings longer than 4 bytes",
 		"each byte string is run through btc.NewTx/SetHash/Serialize/SerializeNew/Weight/VSize/TxSize (blocks: NewBlock+BuildTxListExt true and false), through the Lean model (oracle_c09) and through an independent BIP144/Core reference parser; the property predicate (no panic; accepted iff the reference accepts; re-encoding = bytes consumed; txid/wtxid = double-SHA256 of the stripped/full serialisation; Size/NoWitSize/Weight/VSize/BlockWeight per BIP141; TxSize = consumed and never past the buffer; allocation ≤ 64·len+8192; MerkleRootMatch iff built completely, header field = reference Merkle root of the reference txids, no duplicated pair) is evaluated on the real code; for Block objects with a history: after every build the object carries exactly what a fresh Block of the bytes it holds now carries (error class, TxCount, Txs ids/sizes, BlockWeight, MerkleRootMatch), no panic, Txs[i].Hash = reference txid after BuildTxList, and every field after every call equals the stateful Lean model; model = implementation on every field is the tie for the theorems in Props/C09.lean")
 }
 
